@@ -774,6 +774,9 @@ class SigmaCorrelationRule(SigmaRuleBase, ProcessingItemTrackingMixin):
             if not self.generate:
                 rule.disable_output()
 
+        # The rules named in field aliases are references as well.
+        self.aliases.resolve_rule_references(rule_collection)
+
     def flatten_rules(
         self: Self, include_correlations: bool = True
     ) -> list[SigmaRule | SigmaCorrelationRule]:
